@@ -194,6 +194,94 @@ func (r *vcReplayer) viol(prop, key, desc string, extra vhRec) {
 	vhViol(prop+":"+key, fmt.Sprintf("[%s] step %d (%s %s%s): %s", r.cfg.Algo, r.n, s.Act, s.B, s.P, desc), rec)
 }
 
+// rel names the listed properties whose statement covers a divergence of the given kind (joined by "+"); a check raises an
+// alarm only for divergences that concern its own property, the others are recorded as belonging elsewhere. Growth runs
+// (property names starting with "G-") take every divergence.
+//
+//	stored-lost      an accepted, unexpired bundle is gone                          C05 (C14 for same-instant submissions)
+//	stored-kept      a bundle that had to be refused (hop limit, lifetime, block)    C06; a DTLSR unicast not released: C20
+//	pending          not marked for retry                                            C05
+//	sends-missing    destination connected / epidemic spread                         C05; PRoPHET gate: C19; DTLSR route: C20
+//	sends-refused    transmitted although it had to be refused                      C06
+//	sends-extra      offered to a peer the algorithm must not choose                 C13; spray budget: C18; gate: C19; route: C20
+//	routing-memory   wrong note of who has the bundle                                C05 + C13 (spray: C13 + C18)
+//	deliveries       handed to the local agent wrongly / not at all                  C07 + C15
+//	deadlock         the node stops processing events                                C05 + C07
+func (r *vcReplayer) rel(kind, b string) string {
+	if strings.HasPrefix(r.cfg.Prop, "G-") {
+		return r.cfg.Prop
+	}
+	algo := r.cfg.Algo
+	spray := algo == "spray" || algo == "binary_spray"
+	a := r.cfg.Cat[b]
+	refusable := (len(a.Hop) == 2 && a.Hop[1]+1 > a.Hop[0]) || (a.Life == "short" && r.late) || (a.HasUnk && vcHas(a.UnkF, "delete"))
+	var ps []string
+	switch kind {
+	case "stored-lost":
+		ps = []string{"C05"}
+		if a.Origin == "app" && a.Tsg > 0 {
+			ps = append(ps, "C14")
+		}
+	case "stored-kept":
+		if refusable {
+			ps = []string{"C06"}
+		} else if algo == "dtlsr" && a.Dst != "bcast" {
+			ps = []string{"C20"}
+		}
+	case "pending":
+		ps = []string{"C05"}
+	case "sends-missing-direct":
+		ps = []string{"C05"}
+	case "sends-missing":
+		switch {
+		case algo == "epidemic" || algo == "mule":
+			ps = []string{"C05"}
+		case algo == "prophet":
+			ps = []string{"C19"}
+		case algo == "dtlsr":
+			ps = []string{"C20"}
+			if a.Dst == "bcast" {
+				ps = append(ps, "C05")
+			}
+		}
+	case "sends-refused":
+		ps = []string{"C06"}
+	case "sends-extra":
+		ps = []string{"C13"}
+		switch {
+		case spray:
+			ps = append(ps, "C18")
+		case algo == "prophet":
+			ps = append(ps, "C19")
+		case algo == "dtlsr":
+			ps = append(ps, "C20")
+		}
+	case "routing-memory":
+		if spray {
+			ps = []string{"C13", "C18"}
+		} else {
+			ps = []string{"C05", "C13"}
+		}
+	case "deliveries":
+		ps = []string{"C07", "C15"}
+	case "deadlock":
+		ps = []string{"C05", "C07"}
+	}
+	if len(ps) == 0 {
+		return "none"
+	}
+	return strings.Join(ps, "+")
+}
+
+func vcHas(xs []string, x string) bool {
+	for _, y := range xs {
+		if y == x {
+			return true
+		}
+	}
+	return false
+}
+
 // checkFaithful: C06 on one transmitted bundle.
 func (r *vcReplayer) checkFaithful(sd vcSent, exp *vcSendExp) bool {
 	a, ok := r.cfg.Cat[sd.Name]
@@ -497,7 +585,7 @@ func (r *vcReplayer) run() string {
 		}
 		if err != nil {
 			if strings.HasPrefix(err.Error(), "deadlock") {
-				r.viol(r.cfg.Prop, "core/"+s.Act+"/deadlock", err.Error(), vhRec{"goroutines_after_20s": w.stacks})
+				r.viol(r.rel("deadlock", ""), "core/"+s.Act+"/deadlock", err.Error(), vhRec{"goroutines_after_20s": w.stacks})
 				return "viol"
 			}
 			if strings.HasPrefix(err.Error(), "timing") {
@@ -554,8 +642,32 @@ func (r *vcReplayer) run() string {
 			}
 			key := "core/" + s.Act + "/sends"
 			desc := fmt.Sprintf("bundle %s: expected transmissions to {%s}, observed {%s}", b, vcSet(expT[b]), vcSet(obsT[b]))
-			prop := r.cfg.Prop
-			r.viol(prop, key, desc, vhRec{"observed_sends": obsT})
+			// what kind of divergence: a transmission that is missing, or one that must not happen
+			kind := "sends-extra"
+			em, om := map[string]bool{}, map[string]bool{}
+			for _, p := range expT[b] {
+				em[p] = true
+			}
+			for _, p := range obsT[b] {
+				om[p] = true
+			}
+			extra := false
+			for p := range om {
+				if !em[p] {
+					extra = true
+				}
+			}
+			if extra && len(expT[b]) == 0 && r.rel("stored-kept", b) == "C06" {
+				kind = "sends-refused"
+			} else if !extra {
+				kind = "sends-missing"
+				for p := range em {
+					if !om[p] && expSend[b+">"+p].Direct {
+						kind = "sends-missing-direct"
+					}
+				}
+			}
+			r.viol(r.rel(kind, b), key, desc, vhRec{"observed_sends": obsT, "kind": kind})
 			return "viol"
 		}
 		if twin {
@@ -634,7 +746,7 @@ func (r *vcReplayer) run() string {
 			}
 			r.memChecks++
 			if vcSet(gp) != vcSet(want) {
-				r.viol(r.cfg.Prop, "core/"+s.Act+"/routing-memory", fmt.Sprintf("bundle %s: the algorithm remembers {%s} as having it, expected {%s}", name, vcSet(gp), vcSet(want)), nil)
+				r.viol(r.rel("routing-memory", name), "core/"+s.Act+"/routing-memory", fmt.Sprintf("bundle %s: the algorithm remembers {%s} as having it, expected {%s}", name, vcSet(gp), vcSet(want)), nil)
 				return "viol"
 			}
 		}
@@ -644,7 +756,7 @@ func (r *vcReplayer) run() string {
 			dl = append(dl, d)
 		}
 		if vcSet(dl) != vcSet(s.Exp.Delivered) {
-			r.viol(r.cfg.Prop, "core/"+s.Act+"/deliveries", fmt.Sprintf("expected local deliveries {%s}, observed {%s}", vcSet(s.Exp.Delivered), vcSet(dl)), nil)
+			r.viol(r.rel("deliveries", ""), "core/"+s.Act+"/deliveries", fmt.Sprintf("expected local deliveries {%s}, observed {%s}", vcSet(s.Exp.Delivered), vcSet(dl)), nil)
 			return "viol"
 		}
 		// --- reports
@@ -721,12 +833,30 @@ func (r *vcReplayer) run() string {
 			if len(stored) > len(s.Exp.Stored) {
 				cls = "kept"
 			}
-			prop := r.cfg.Prop
-			r.viol(prop, "core/"+s.Act+"/stored-"+cls, fmt.Sprintf("expected store {%s}, observed {%s}", vcSet(s.Exp.Stored), vcSet(stored)), nil)
+			// the bundle the stores differ in decides whom this concerns
+			es, os2 := map[string]bool{}, map[string]bool{}
+			for _, n := range s.Exp.Stored {
+				es[n] = true
+			}
+			for _, n := range stored {
+				os2[n] = true
+			}
+			subject, kind := "", "stored-kept"
+			for n := range os2 {
+				if !es[n] {
+					subject = n
+				}
+			}
+			for n := range es {
+				if !os2[n] {
+					subject, kind = n, "stored-lost"
+				}
+			}
+			r.viol(r.rel(kind, subject), "core/"+s.Act+"/stored-"+cls, fmt.Sprintf("expected store {%s}, observed {%s}", vcSet(s.Exp.Stored), vcSet(stored)), vhRec{"kind": kind, "subject": subject})
 			return "viol"
 		}
 		if vcSet(pending) != vcSet(s.Exp.Pending) {
-			r.viol(r.cfg.Prop, "core/"+s.Act+"/pending", fmt.Sprintf("expected pending {%s}, observed {%s}", vcSet(s.Exp.Pending), vcSet(pending)), nil)
+			r.viol(r.rel("pending", ""), "core/"+s.Act+"/pending", fmt.Sprintf("expected pending {%s}, observed {%s}", vcSet(s.Exp.Pending), vcSet(pending)), nil)
 			return "viol"
 		}
 		r.steps++
